@@ -1,1 +1,320 @@
-"""Registry entries (see x_registry)."""
+"""Registry entries: factorised-tensor conversions and transforms (CP / Tucker / TT / TR / TT-matrix / PARAFAC2),
+preprocessing."""
+import numpy as np
+from hypothesis import strategies as st
+
+import tensorly as tl
+from tensorly import cp_tensor as CP, tucker_tensor as TK, tt_tensor as TT, tr_tensor as TR, tt_matrix as TTM
+from tensorly import parafac2_tensor as P2, preprocessing as PRE
+from tensorly.cp_tensor import CPTensor
+from tensorly.tt_tensor import TTTensor
+from tensorly.tr_tensor import TRTensor
+from tensorly.tt_matrix import TTMatrix
+from tensorly.parafac2_tensor import Parafac2Tensor
+
+from . import gen
+from .x_registry import register, Call, CPLX, REAL, enc, mask_spec, small_shape, container
+from .x_reg_tenalg import cp_arg
+from .x_reg_decomp import tucker_arg, p2_parts, SVDS
+
+seeds = gen.seeds
+CPK = st.sampled_from(["tuple", "list", "cpt"])
+
+
+# ============================================================================
+# CP
+# ============================================================================
+@st.composite
+def s_cp(draw, min_order=2, max_order=4, weights=("none", "ones", "pos", "mixed"), kinds=("normal",), extra=None):
+    shape = draw(small_shape(min_order, max_order, 1, 4, 64))
+    r = draw(st.integers(1, 3))
+    c = {"cp": draw(gen.cp_factors(shape, r, kinds=kinds, weights=weights)), "argkind": draw(CPK), "shape": shape, "rank": r}
+    return c
+
+
+def _cp(e, ctx, key="cp", kind=None):
+    w = ctx.R(e[key]["weights"])
+    return cp_arg(kind or e["argkind"], w, [ctx.A(f) for f in e[key]["factors"]])
+
+
+@st.composite
+def s_cp_to_tensor(draw):
+    c = draw(s_cp(min_order=1))
+    c["mask"] = draw(mask_spec()) if len(c["shape"]) >= 2 else None
+    if c["mask"] is not None:
+        c["mask"]["kind"] = "float"
+    if len(c["shape"]) == 1 and c["cp"]["weights"] is None:      # order-1 path multiplies by the weights unconditionally
+        c["cp"]["weights"] = {"s": [c["rank"]], "d": [1.0] * c["rank"]}
+    return c
+
+
+register("cp_to_tensor", s_cp_to_tensor(),
+         lambda e, ctx: Call(CP.cp_to_tensor, dict(cp_tensor=_cp(e, ctx), mask=ctx.mask(e["mask"], e["shape"]))), dtypes=CPLX, quick=150)
+
+
+@st.composite
+def s_cp_mode(draw):
+    c = draw(s_cp())
+    c["mode"] = draw(st.integers(0, len(c["shape"]) - 1))
+    return c
+
+
+register("cp_to_unfolded", s_cp_mode(), lambda e, ctx: Call(CP.cp_to_unfolded, dict(cp_tensor=_cp(e, ctx), mode=e["mode"])), dtypes=CPLX, quick=120)
+register("cp_to_vec", s_cp(), lambda e, ctx: Call(CP.cp_to_vec, dict(cp_tensor=_cp(e, ctx))), dtypes=CPLX, quick=120)
+register("cp_norm", s_cp(), lambda e, ctx: Call(CP.cp_norm, dict(cp_tensor=_cp(e, ctx))), dtypes=CPLX, quick=120, returns=False)
+register("cp_normalize", s_cp(), lambda e, ctx: Call(CP.cp_normalize, dict(cp_tensor=_cp(e, ctx))), dtypes=CPLX, quick=150,
+         real_ok=lambda p: False)
+
+
+@st.composite
+def s_cp_flip(draw):
+    c = draw(s_cp(weights=("none", "ones", "pos", "neg", "mixed")))
+    c["mode"] = draw(st.integers(0, len(c["shape"]) - 1))
+    return c
+
+
+register("cp_flip_sign", s_cp_flip(), lambda e, ctx: Call(CP.cp_flip_sign, dict(cp_tensor=_cp(e, ctx), mode=e["mode"])), quick=150)
+
+
+@st.composite
+def s_cp_permute(draw):
+    shape = draw(small_shape(2, 3, 2, 4, 48))
+    r = draw(st.integers(1, 3))
+    n = draw(st.integers(1, 2))
+    return {"ref": draw(gen.cp_factors(shape, r, kinds=("normal",), weights=("ones", "pos"))),
+            "others": [draw(gen.cp_factors(shape, r, kinds=("normal",), weights=("ones", "pos", "mixed"))) for _ in range(n)],
+            "form": draw(st.sampled_from(["single", "list"])), "refkind": draw(CPK)}
+
+
+def b_cp_permute(e, ctx):
+    ref = _cp(e, ctx, "ref", e["refkind"])
+    others = [_cp({"x": o}, ctx, "x", "cpt") for o in e["others"]]
+    return Call(CP.cp_permute_factors, dict(ref_cp_tensor=ref, tensors_to_permute=others if e["form"] == "list" else others[0]))
+
+
+register("cp_permute_factors", s_cp_permute(), b_cp_permute, quick=120)
+
+
+@st.composite
+def s_cp_mode_dot(draw):
+    c = draw(s_cp(weights=("ones", "pos", "mixed", "none")))
+    m = draw(st.integers(0, len(c["shape"]) - 1))
+    vec = draw(st.booleans())
+    c.update(mode=m, kind="vector" if vec else "matrix", keep_dim=draw(st.booleans()), copy=draw(st.sampled_from([True, True, False])),
+             M=draw(enc([c["shape"][m]] if vec else [draw(st.integers(1, 3)), c["shape"][m]])))
+    return c
+
+
+def b_cp_mode_dot(e, ctx):
+    # copy=False is documented as in place on the factorised argument (exempt); the matrix never is
+    return Call(CP.cp_mode_dot, dict(cp_tensor=_cp(e, ctx), matrix_or_vector=ctx.A(e["M"]), mode=e["mode"], keep_dim=e["keep_dim"], copy=e["copy"]),
+                exempt=() if e["copy"] else ("cp_tensor",))
+
+
+register("cp_mode_dot", s_cp_mode_dot(), b_cp_mode_dot, dtypes=CPLX, quick=150,
+         real_ok=lambda p: p.endswith("weights"))      # the (real) weights argument is passed through unchanged
+
+
+@st.composite
+def s_cp_grad(draw):
+    c = draw(s_cp(max_order=3))
+    c["X"] = draw(enc(c["shape"]))
+    c["mask"] = draw(mask_spec())
+    if c["mask"] is not None:
+        c["mask"]["kind"] = "float"
+    c["return_loss"] = draw(st.booleans())
+    return c
+
+
+register("cp_lstsq_grad", s_cp_grad(),
+         lambda e, ctx: Call(CP.cp_lstsq_grad, dict(cp_tensor=_cp(e, ctx), tensor=ctx.A(e["X"]), return_loss=e["return_loss"], mask=ctx.mask(e["mask"], e["shape"]))),
+         quick=100)
+
+
+# ============================================================================
+# Tucker
+# ============================================================================
+@st.composite
+def s_tk(draw):
+    shape = draw(small_shape(2, 4, 1, 3, 54))
+    ranks = [draw(st.integers(1, 3)) for _ in shape]
+    return {"tk": draw(gen.tucker_factors(shape, ranks, kinds=("normal",))), "argkind": draw(st.sampled_from(["tuple", "list", "tkt"])),
+            "shape": shape, "ranks": ranks}
+
+
+def _tk(e, ctx):
+    return tucker_arg(e["argkind"], ctx.A(e["tk"]["core"]), [ctx.A(f) for f in e["tk"]["factors"]])
+
+
+@st.composite
+def s_tk_to_tensor(draw):
+    c = draw(s_tk())
+    c["skip_factor"] = draw(st.one_of(st.none(), st.integers(0, len(c["shape"]) - 1)))
+    c["mode"] = draw(st.integers(0, len(c["shape"]) - 1))
+    return c
+
+
+register("tucker_to_tensor", s_tk_to_tensor(),
+         lambda e, ctx: Call(TK.tucker_to_tensor, dict(tucker_tensor=_tk(e, ctx), skip_factor=e["skip_factor"])), dtypes=CPLX, quick=120)
+register("tucker_to_unfolded", s_tk_to_tensor(),
+         lambda e, ctx: Call(TK.tucker_to_unfolded, dict(tucker_tensor=_tk(e, ctx), mode=e["mode"], skip_factor=e["skip_factor"])), dtypes=CPLX, quick=100)
+register("tucker_to_vec", s_tk_to_tensor(),
+         lambda e, ctx: Call(TK.tucker_to_vec, dict(tucker_tensor=_tk(e, ctx), skip_factor=e["skip_factor"])), dtypes=CPLX, quick=100)
+register("tucker_normalize", s_tk(), lambda e, ctx: Call(TK.tucker_normalize, dict(tucker_tensor=_tk(e, ctx))), dtypes=CPLX, quick=120)
+
+
+@st.composite
+def s_tk_mode_dot(draw):
+    c = draw(s_tk())
+    m = draw(st.integers(0, len(c["shape"]) - 1))
+    vec = draw(st.booleans())
+    c.update(mode=m, kind="vector" if vec else "matrix", keep_dim=draw(st.booleans()), copy=draw(st.sampled_from([True, True, False])),
+             M=draw(enc([c["shape"][m]] if vec else [draw(st.integers(1, 3)), c["shape"][m]])))
+    return c
+
+
+def b_tk_mode_dot(e, ctx):
+    return Call(TK.tucker_mode_dot, dict(tucker_tensor=_tk(e, ctx), matrix_or_vector=ctx.A(e["M"]), mode=e["mode"], keep_dim=e["keep_dim"], copy=e["copy"]),
+                exempt=() if e["copy"] else ("tucker_tensor",))
+
+
+register("tucker_mode_dot", s_tk_mode_dot(), b_tk_mode_dot, dtypes=CPLX, quick=150)
+
+
+# ============================================================================
+# TT / TR / TT-matrix
+# ============================================================================
+@st.composite
+def s_tt(draw, ring=False):
+    shape = draw(small_shape(2 if ring else 1, 4, 1, 3, 54))
+    n = len(shape)
+    if ring:
+        r = [draw(st.integers(1, 3)) for _ in range(n)]
+        ranks = r + [r[0]]
+    else:
+        ranks = [1] + [draw(st.integers(1, 3)) for _ in range(n - 1)] + [1]
+    return {"cores": draw(gen.tt_cores(shape, ranks, kinds=("normal",))), "argkind": draw(st.sampled_from(["list", "tuple", "obj"])),
+            "mode": draw(st.integers(0, n - 1)), "shape": shape}
+
+
+def _tt(e, ctx, cls):
+    cores = [ctx.A(c) for c in e["cores"]]
+    if e["argkind"] == "obj":
+        return cls(cores)
+    return container(e["argkind"], cores)
+
+
+register("tt_to_tensor", s_tt(), lambda e, ctx: Call(TT.tt_to_tensor, dict(factors=_tt(e, ctx, TTTensor))), dtypes=CPLX, quick=120)
+register("tt_to_unfolded", s_tt(), lambda e, ctx: Call(TT.tt_to_unfolded, dict(factors=_tt(e, ctx, TTTensor), mode=e["mode"])), dtypes=CPLX, quick=100)
+register("tt_to_vec", s_tt(), lambda e, ctx: Call(TT.tt_to_vec, dict(factors=_tt(e, ctx, TTTensor))), dtypes=CPLX, quick=100)
+register("tr_to_tensor", s_tt(ring=True), lambda e, ctx: Call(TR.tr_to_tensor, dict(factors=_tt(e, ctx, TRTensor))), dtypes=CPLX, quick=120)
+register("tr_to_unfolded", s_tt(ring=True), lambda e, ctx: Call(TR.tr_to_unfolded, dict(factors=_tt(e, ctx, TRTensor), mode=e["mode"])), dtypes=CPLX, quick=100)
+register("tr_to_vec", s_tt(ring=True), lambda e, ctx: Call(TR.tr_to_vec, dict(factors=_tt(e, ctx, TRTensor))), dtypes=CPLX, quick=100)
+
+
+@st.composite
+def s_pad_tt(draw):
+    c = draw(s_tt())
+    c["n_padding"] = draw(st.integers(1, 2))
+    c["pad_boundaries"] = draw(st.booleans())
+    return c
+
+
+register("pad_tt_rank", s_pad_tt(),
+         lambda e, ctx: Call(TT.pad_tt_rank, dict(factor_list=_tt(e, ctx, TTTensor), n_padding=e["n_padding"], pad_boundaries=e["pad_boundaries"])),
+         dtypes=CPLX, quick=120)
+
+
+@st.composite
+def s_ttm(draw):
+    n = draw(st.integers(1, 3))
+    ins = [draw(st.integers(1, 3)) for _ in range(n)]
+    outs = [draw(st.integers(1, 3)) for _ in range(n)]
+    ranks = [1] + [draw(st.integers(1, 2)) for _ in range(n - 1)] + [1]
+    return {"cores": draw(gen.ttm_cores(ins, outs, ranks, kinds=("normal",))), "argkind": draw(st.sampled_from(["list", "tuple", "obj"])),
+            "mode": draw(st.integers(0, 2 * n - 1))}
+
+
+def _b_ttm(fn, mode=False):
+    def b(e, ctx):
+        kw = dict(tt_matrix=_tt(e, ctx, TTMatrix))
+        if mode:
+            kw["mode"] = e["mode"]
+        return Call(fn, kw)
+    return b
+
+
+def _ttm_to_tensor(tt_matrix):
+    return TTM.tt_matrix_to_tensor(tt_matrix)         # dispatched through the selected tenalg backend
+
+
+register("tt_matrix_to_tensor", s_ttm(), _b_ttm(_ttm_to_tensor), dtypes=CPLX, backends=True, quick=120)
+register("tt_matrix_to_matrix", s_ttm(), _b_ttm(TTM.tt_matrix_to_matrix), dtypes=CPLX, backends=True, quick=100)
+register("tt_matrix_to_unfolded", s_ttm(), _b_ttm(TTM.tt_matrix_to_unfolded, mode=True), dtypes=CPLX, backends=True, quick=100)
+register("tt_matrix_to_vec", s_ttm(), _b_ttm(TTM.tt_matrix_to_vec), dtypes=CPLX, backends=True, quick=100)
+
+
+# ============================================================================
+# PARAFAC2 + preprocessing
+# ============================================================================
+@st.composite
+def s_p2(draw):
+    K = draw(st.integers(1, 4))
+    rank = draw(st.integers(1, 3))
+    I = draw(st.integers(1, 3))
+    rows = [draw(st.integers(rank, 4)) for _ in range(I)]
+    return {"rows": rows, "K": K, "rank": rank, "seed": draw(seeds), "w": draw(st.sampled_from(["none", "ones", "pos"])),
+            "argkind": draw(st.sampled_from(["tuple", "list", "obj"])), "idx": draw(st.integers(0, I - 1)), "mode": draw(st.integers(0, 2))}
+
+
+def _p2(e, ctx):
+    w, facs, projs = p2_parts(e["seed"], len(e["rows"]), e["rows"], e["K"], e["rank"], ctx, e["w"])
+    if e["argkind"] == "obj":
+        return Parafac2Tensor((w, facs, projs))
+    return container(e["argkind"], [w, facs, projs])
+
+
+register("parafac2_to_tensor", s_p2(), lambda e, ctx: Call(P2.parafac2_to_tensor, dict(parafac2_tensor=_p2(e, ctx))), quick=120)
+register("parafac2_to_slices", s_p2(), lambda e, ctx: Call(P2.parafac2_to_slices, dict(parafac2_tensor=_p2(e, ctx))), quick=100)
+register("parafac2_to_slice", s_p2(), lambda e, ctx: Call(P2.parafac2_to_slice, dict(parafac2_tensor=_p2(e, ctx), slice_idx=e["idx"])), quick=100)
+register("parafac2_to_unfolded", s_p2(), lambda e, ctx: Call(P2.parafac2_to_unfolded, dict(parafac2_tensor=_p2(e, ctx), mode=e["mode"])), quick=80)
+register("parafac2_to_vec", s_p2(), lambda e, ctx: Call(P2.parafac2_to_vec, dict(parafac2_tensor=_p2(e, ctx))), quick=80)
+register("parafac2_normalise", s_p2(), lambda e, ctx: Call(P2.parafac2_normalise, dict(parafac2_tensor=_p2(e, ctx))), quick=120)
+register("apply_parafac2_projections", s_p2(), lambda e, ctx: Call(P2.apply_parafac2_projections, dict(parafac2_tensor=_p2(e, ctx))), quick=100)
+
+
+@st.composite
+def s_compress(draw):
+    K = draw(st.integers(1, 4))
+    I = draw(st.integers(1, 3))
+    rows = [draw(st.integers(1, 6)) for _ in range(I)]
+    return {"rows": rows, "K": K, "seed": draw(seeds), "form": draw(st.sampled_from(["list", "tuple", "array"])),
+            "thr": draw(st.sampled_from([0.0, 0.0, 0.3])), "max_rank": draw(st.one_of(st.none(), st.integers(1, 4))), "svd": draw(SVDS)}
+
+
+def b_compress(e, ctx):
+    rs = np.random.RandomState(int(e["seed"]) % (2 ** 32))
+    rows = e["rows"] if e["form"] != "array" else [e["rows"][0]] * len(e["rows"])
+    sl = [rs.standard_normal((r, e["K"])) for r in rows]
+    X = ctx.W(np.stack(sl)) if e["form"] == "array" else container(e["form"], [ctx.W(s) for s in sl])
+    return Call(PRE.svd_compress_tensor_slices, dict(tensor_slices=X, compression_threshold=e["thr"], max_rank=e["max_rank"], svd=e["svd"]))
+
+
+register("svd_compress_tensor_slices", s_compress(), b_compress, quick=120)
+
+
+@st.composite
+def s_decompress(draw):
+    c = draw(s_p2())
+    c["full_rows"] = [draw(st.one_of(st.none(), st.integers(r, r + 2))) for r in c["rows"]]
+    c["lkind"] = draw(st.sampled_from(["list", "tuple"]))
+    return c
+
+
+def b_decompress(e, ctx):
+    rs = np.random.RandomState((int(e["seed"]) + 7) % (2 ** 32))
+    load = [None if fr is None else ctx.W(gen.orthonormal(rs.randint(0, 2 ** 31 - 1), fr, r)) for fr, r in zip(e["full_rows"], e["rows"])]
+    return Call(PRE.svd_decompress_parafac2_tensor, dict(parafac2_tensor=_p2(e, ctx), loading_matrices=container(e["lkind"], load)))
+
+
+register("svd_decompress_parafac2_tensor", s_decompress(), b_decompress, quick=120)
